@@ -20,7 +20,7 @@ class C03(PureCheck):
     per_item_states = 2
     rule = ("decision tree of the real get_key: root, the whole ESC subtree (every prefix of a table sequence), every UTF-8 "
             "lead byte, every valid 2-byte prefix under 3/4-byte leads (quick: sampled) - each node x every next byte 0..255 x "
-            "full in {False, True} x 3 naming modes x encodings utf8/ascii/latin1; streams K1 K2 through Input.find_key "
+            "full in {False, True} x 3 naming modes x encodings utf8/ascii/latin1 (every third node again with an abandoned probe of another unfinished keypress right before each call); streams K1 K2 through Input.find_key "
             "semantics (every table sequence followed by a sampled byte / table sequence / character, 'arrives whole' and "
             "'more buffered'); Unicode scalar values (quick: boundaries + 30k sampled; thorough: all 1,112,064) fed one byte "
             "at a time; end to end: keypresses written to a pipe an Input reads from (a multi-byte key at every offset around the "
@@ -46,6 +46,17 @@ class C03(PureCheck):
         return [dict(module="MC_KeyDecoder", cfg=cfg, workers=8, timeout=3000, env={"KEYTABLES": str(self.tpath)})]
 
     def inputs(self, tier, rng):
+        # every third node of the decision tree is also visited with another call history: right before each of its calls
+        # an unfinished keypress of one chunk less (other bytes) was probed and abandoned
+        k = 0
+        for inp in self._inputs0(tier, rng):
+            yield inp
+            if inp.get("op") == "node" and len(inp["buf"]) >= 1:
+                k += 1
+                if k % 3 == 0:
+                    yield dict(inp, probe=1)
+
+    def _inputs0(self, tier, rng):
         ev = self.tables.events
         encs = ["utf8", "ascii", "latin1"]
         prefixes = sorted(ev.KEYMAP_PREFIXES)
@@ -153,7 +164,11 @@ class C03(PureCheck):
     def _execute_case(self, inp):
         T = self.tables
         if inp["op"] == "node":
-            return T.node_event(inp["buf"], inp["enc"])
+            T.probe = bool(inp.get("probe"))
+            try:
+                return T.node_event(inp["buf"], inp["enc"])
+            finally:
+                T.probe = False
         if inp["op"] == "pipe":
             ev = dict(inp)
             if inp.get("pieces"):
